@@ -47,6 +47,8 @@ SRC_GLOBAL = 'nextline/spawned/plugin/plugins/global_.py'
 SRC_UTILS = 'nextline/spawned/utils.py'
 SRC_CALL = 'nextline/spawned/call.py'
 SRC_SPEC = 'nextline/spawned/plugin/spec.py'
+SRC_RUNNER = 'nextline/spawned/runner.py'
+SRC_LOCAL = 'nextline/spawned/plugin/plugins/local_.py'
 
 BDB_METHODS = ['trace_dispatch', 'dispatch_line', 'dispatch_call', 'dispatch_return', 'dispatch_exception',
                'stop_here', '_set_stopinfo', 'set_until', 'set_step', 'set_next', 'set_return']
@@ -221,27 +223,102 @@ def tr_exp(n, sc: Scope) -> str:
     raise BdbError(f'{w}: expression `{norm(n)}`')
 
 
+EFFECTFUL = (ast.Call, ast.NamedExpr, ast.Await, ast.Yield, ast.YieldFrom, ast.Lambda, ast.GeneratorExp, ast.ListComp,
+             ast.SetComp, ast.DictComp, ast.Starred)
+
+
+def pure_text(n) -> bool:
+    """an argument of a log / print call: no Call, NamedExpr, Await, Yield, comprehension anywhere in it
+    (`repr(<name>)` / `str(<name>)` of a plain name is let through: bdb.py prints repr(event))"""
+    if isinstance(n, ast.Call) and (is_name(n.func, 'repr') or is_name(n.func, 'str')) and len(n.args) == 1 and not n.keywords \
+            and isinstance(n.args[0], ast.Name):
+        return True
+    return not any(isinstance(x, EFFECTFUL) for x in ast.walk(n))
+
+
 def is_noise(st) -> bool:
-    """print(...), logger.xxx(...), logger = getLogger(...), pass, a bare string"""
+    """The ONLY statements that are ignored in a translated function (shared rule for ignored positions):
+         pass / a bare constant (docstring);
+         print(...), logger.<level>(...), self._logger.<level>(...), getLogger(<name>).<level>(...)
+             whose arguments contain no Call / NamedExpr / Await / Yield / comprehension;
+         logger = getLogger(<name>);   msg = <such a text>  (the text of a log message).
+       An `assert` is never noise."""
     if isinstance(st, ast.Pass):
         return True
     if isinstance(st, ast.Expr) and isinstance(st.value, ast.Constant):
         return True
     if isinstance(st, ast.Expr) and isinstance(st.value, ast.Call):
-        f = st.value.func
-        if any(isinstance(x, (ast.NamedExpr, ast.Await, ast.Yield, ast.YieldFrom, ast.Lambda)) for x in ast.walk(st)):
-            return False
-        inner_calls = [x for a in st.value.args + [k.value for k in st.value.keywords] for x in ast.walk(a) if isinstance(x, ast.Call)]
-        if any(not (is_name(c.func, 'repr') or is_name(c.func, 'str')) for c in inner_calls):    # arguments may only format
+        c = st.value
+        f = c.func
+        if not all(pure_text(a) for a in c.args) or not all(k.arg is not None and pure_text(k.value) for k in c.keywords):
             return False
         if is_name(f, 'print'):
             return True
-        if isinstance(f, ast.Attribute) and isinstance(f.value, ast.Call) and is_name(f.value.func, 'getLogger'):
+        if not isinstance(f, ast.Attribute) or f.attr not in ('debug', 'info', 'warning', 'error', 'exception', 'critical', 'log'):
+            return False
+        if isinstance(f.value, ast.Call) and is_name(f.value.func, 'getLogger') and all(isinstance(a, ast.Name) for a in f.value.args) \
+                and not f.value.keywords:
             return True                 # getLogger(__name__).debug(...)
-        return isinstance(f, ast.Attribute) and (is_name(f.value, 'logger') or is_attr_chain(f.value, ['self', '_logger']))
+        return is_name(f.value, 'logger') or is_attr_chain(f.value, ['self', '_logger'])
     if isinstance(st, ast.Assign) and len(st.targets) == 1 and is_name(st.targets[0], 'logger'):
-        return isinstance(st.value, ast.Call) and is_name(st.value.func, 'getLogger')
+        v = st.value
+        return isinstance(v, ast.Call) and is_name(v.func, 'getLogger') and all(isinstance(a, ast.Name) for a in v.args) and not v.keywords
+    if isinstance(st, ast.Assign) and len(st.targets) == 1 and is_name(st.targets[0], 'msg'):
+        return isinstance(st.value, (ast.JoinedStr, ast.Constant)) and pure_text(st.value)
     return False
+
+
+def check_module_level(tree, where: str, allowed_assign=()) -> None:
+    """module body: docstring, imports, def/class, `__all__`-like assignments of the names given; anything else
+    (an attribute store = monkeypatch, a re-binding of a translated name, a call) is refused"""
+    defined: dict[str, int] = {}
+    for st in tree.body:
+        if isinstance(st, ast.Expr) and isinstance(st.value, ast.Constant):
+            continue
+        if isinstance(st, (ast.Import, ast.ImportFrom)):
+            for a in st.names:
+                nm = (a.asname or a.name).split('.')[0]
+                defined[nm] = defined.get(nm, 0) + 1
+            continue
+        if isinstance(st, (ast.FunctionDef, ast.AsyncFunctionDef, ast.ClassDef)):
+            defined[st.name] = defined.get(st.name, 0) + 1
+            continue
+        if isinstance(st, ast.Assign) and len(st.targets) == 1 and isinstance(st.targets[0], ast.Name) and st.targets[0].id in allowed_assign \
+                and pure_text(st.value):
+            defined[st.targets[0].id] = defined.get(st.targets[0].id, 0) + 1
+            continue
+        raise BdbError(f'{where}:{st.lineno}: module-level statement `{norm(st).splitlines()[0]}` not recognised')
+    twice = sorted(k for k, v in defined.items() if v > 1)
+    if twice:
+        raise BdbError(f'{where}: {twice} bound more than once at module level')
+
+
+def imports_of(tree) -> dict:
+    imp = {}
+    for st in tree.body:
+        if isinstance(st, ast.ImportFrom):
+            for a in st.names:
+                imp[a.asname or a.name] = ('.' * st.level + (st.module or ''), a.name)
+        elif isinstance(st, ast.Import):
+            for a in st.names:
+                imp[a.asname or a.name.split('.')[0]] = (a.name, None)
+    return imp
+
+
+def check_class_body(cls, where: str) -> list:
+    """class body: docstring and `def`s only (no class-level state, no nested class, no alias of a method)"""
+    fns = []
+    for st in strip_doc(cls.body):
+        if isinstance(st, ast.FunctionDef):
+            fns.append(st)
+        elif isinstance(st, ast.Pass):
+            continue
+        else:
+            raise BdbError(f'{where}:{st.lineno}: class-level statement `{norm(st).splitlines()[0]}`')
+    names = [f.name for f in fns]
+    if len(set(names)) != len(names):
+        raise BdbError(f'{where}: a method is defined twice')
+    return fns
 
 
 def tr_body(body, sc: Scope, extra=None) -> str:
@@ -345,14 +422,11 @@ def bdb_methods() -> list[str]:
 
 def custom_defs(repo: Path) -> dict:
     tree = parse(repo / SRC_CUSTOM)
+    check_module_level(tree, SRC_CUSTOM)
     cls = find(tree.body, ast.ClassDef, 'CustomizedPdb', SRC_CUSTOM)
     if [norm(b) for b in cls.bases] != ['Pdb'] or cls.keywords or cls.decorator_list:
         raise BdbError('CustomizedPdb: bases/decorators')
-    imp = {}
-    for st in tree.body:
-        if isinstance(st, ast.ImportFrom):
-            for a in st.names:
-                imp[a.asname or a.name] = (st.module, a.name)
+    imp = imports_of(tree)
     if imp.get('Pdb') != ('pdb', 'Pdb'):
         raise BdbError('custom.py: `Pdb` is not `from pdb import Pdb`')
     if imp.get('NotOnTraceCall') != ('nextline.spawned.exc', 'NotOnTraceCall'):
@@ -360,16 +434,13 @@ def custom_defs(repo: Path) -> dict:
     methods: list[str] = []
     overrides: list[str] = []
     res: dict = {}
-    for st in strip_doc(cls.body):
-        if not isinstance(st, ast.FunctionDef):
-            if isinstance(st, (ast.Pass,)) or (isinstance(st, ast.Expr) and isinstance(st.value, ast.Constant)):
-                continue
-            raise BdbError(f'CustomizedPdb:{st.lineno}: class-level statement `{norm(st).splitlines()[0]}`')
+    for st in check_class_body(cls, 'CustomizedPdb'):
         name = st.name
         if name in overrides or name == '__init__' and 'init' in res:
             raise BdbError(f'CustomizedPdb.{name} defined twice')
         where = f'CustomizedPdb.{name}'
         if name == '__init__':
+            check_init_signature(st)
             res['init'] = tr_method(st, where, extra=init_extra, ignore_params=True)
             continue
         overrides.append(name)
@@ -379,11 +450,11 @@ def custom_defs(repo: Path) -> dict:
             check_underscore_cmdloop(st)
         elif name in CUSTOM_TRANSLATED:
             methods.append(tr_method(st, where))
-        elif name in BDB_TRACKED or name in PDB_TRACKED or name.startswith('do_') or name.startswith('user_'):
-            raise BdbError(f'{where}: an override of `{name}` is not understood')
         else:
-            # a new helper method: it must not be reachable from the translated ones (tr_exp refuses unknown calls)
-            continue
+            # any other method -- an override of a Bdb/Pdb/Cmd method (do_*, user_*, precmd, postcmd, onecmd, default,
+            # message, error, interaction, ...), a dunder (__getattribute__, __setattr__ ...) or a new helper -- is refused
+            raise BdbError(f'{where}: CustomizedPdb defines `{name}`: only __init__, cmdloop, _cmdloop, set_continue and '
+                           f'overrides of the translated Bdb methods are understood')
     if 'init' not in res:
         raise BdbError('CustomizedPdb.__init__ missing')
     if 'cmdloop' not in res:
@@ -396,29 +467,46 @@ def custom_defs(repo: Path) -> dict:
 
 
 def init_extra(st, sc: Scope):
-    """CustomizedPdb.__init__: super().__init__(...) with nosigint=True, private attributes: no effect on the stop logic"""
+    """CustomizedPdb.__init__: `super().__init__(stdin=<name>, stdout=<name>, nosigint=True, readrc=False)` (no skip: Bdb.skip
+    stays None; no .pdbrc commands) and `self._cmdloop_hook = cmdloop_hook` have no effect on the stop logic; nothing else is let through"""
     w = f'{sc.where}:{st.lineno}'
     if isinstance(st, ast.Expr) and isinstance(st.value, ast.Call):
         c = st.value
         f = c.func
-        if isinstance(f, ast.Attribute) and f.attr == '__init__' and isinstance(f.value, ast.Call) and is_name(f.value.func, 'super') and not f.value.args:
+        if isinstance(f, ast.Attribute) and f.attr == '__init__' and isinstance(f.value, ast.Call) and is_name(f.value.func, 'super') \
+                and not f.value.args and not f.value.keywords:
             kws = {k.arg: k.value for k in c.keywords}
-            if c.args or 'skip' in kws or None in kws:
-                raise BdbError(f'{w}: super().__init__ with positional arguments / skip= / **kwargs (Bdb.skip must stay None)')
-            ns = kws.get('nosigint')
-            if not (isinstance(ns, ast.Constant) and ns.value is True):
+            if c.args or None in kws or set(kws) - {'stdin', 'stdout', 'nosigint', 'readrc'}:
+                raise BdbError(f'{w}: super().__init__ with positional arguments / **kwargs / skip= / completekey= (only stdin, stdout, nosigint, readrc)')
+            if not (isinstance(kws.get('nosigint'), ast.Constant) and kws['nosigint'].value is True):
                 raise BdbError(f'{w}: super().__init__ without nosigint=True')
+            if not (isinstance(kws.get('readrc'), ast.Constant) and kws['readrc'].value is False):
+                raise BdbError(f'{w}: super().__init__ without readrc=False (a .pdbrc file would issue commands)')
+            for k in ('stdin', 'stdout'):
+                if k in kws and not isinstance(kws[k], ast.Name):
+                    raise BdbError(f'{w}: super().__init__({k}=<not a plain name>)')
+            if sc.__dict__.get('super_init'):
+                raise BdbError(f'{w}: super().__init__ called twice')
+            sc.super_init = True
             return ''
-    if isinstance(st, ast.Assign) and len(st.targets) == 1:
-        t = st.targets[0]
-        if isinstance(t, ast.Attribute) and is_name(t.value, 'self') and t.attr.startswith('_') and t.attr not in ATTRS \
-                and isinstance(st.value, ast.Name):
-            return ''
+    if isinstance(st, ast.Assign) and len(st.targets) == 1 and is_attr_chain(st.targets[0], ['self', '_cmdloop_hook']):
+        if not is_name(st.value, 'cmdloop_hook'):
+            raise BdbError(f'{w}: self._cmdloop_hook is not the parameter cmdloop_hook')
+        return ''
     return None
+
+
+def check_init_signature(fn) -> None:
+    a = fn.args
+    if [x.arg for x in a.args] != ['self', 'cmdloop_hook', 'stdin', 'stdout'] or a.defaults or a.vararg or a.kwarg or a.kwonlyargs \
+            or a.posonlyargs or fn.decorator_list:
+        raise BdbError('CustomizedPdb.__init__: parameters other than (self, cmdloop_hook, stdin, stdout) / defaults / decorators')
 
 
 def check_underscore_cmdloop(fn) -> None:
     """_cmdloop(self): self.cmdloop()"""
+    if fn.decorator_list or [a.arg for a in fn.args.args] != ['self'] or fn.args.vararg or fn.args.kwarg or fn.args.kwonlyargs:
+        raise BdbError('CustomizedPdb._cmdloop: decorators/parameters')
     body = strip_doc(fn.body)
     body = [st for st in body if not is_noise(st)]
     ok = len(body) == 1 and isinstance(body[0], ast.Expr) and isinstance(body[0].value, ast.Call) \
@@ -429,7 +517,11 @@ def check_underscore_cmdloop(fn) -> None:
 
 def tr_cmdloop(fn) -> str:
     where = 'CustomizedPdb.cmdloop'
-    sc = Scope(where, [a.arg for a in fn.args.args[1:]])
+    a = fn.args
+    if fn.decorator_list or [x.arg for x in a.args] != ['self', 'intro'] or a.vararg or a.kwarg or a.kwonlyargs or a.posonlyargs \
+            or len(a.defaults) != 1 or not (isinstance(a.defaults[0], ast.Constant) and a.defaults[0].value is None):
+        raise BdbError(f'{where}: decorators / parameters other than (self, intro=None)')
+    sc = Scope(where, [])
 
     def cbody(sts) -> str:
         return seq([cstmt(s) for s in strip_doc(sts)], 'CSkip', 'CSeq')
@@ -455,7 +547,9 @@ def tr_cmdloop(fn) -> str:
         if isinstance(st, ast.Expr) and isinstance(st.value, ast.Call):
             c = st.value
             f = c.func
-            if isinstance(f, ast.Attribute) and f.attr == 'cmdloop' and isinstance(f.value, ast.Call) and is_name(f.value.func, 'super') and not f.value.args:
+            if isinstance(f, ast.Attribute) and f.attr == 'cmdloop' and isinstance(f.value, ast.Call) and is_name(f.value.func, 'super') \
+                    and not f.value.args and not f.value.keywords and not c.args \
+                    and [(k.arg, norm(k.value)) for k in c.keywords] in ([('intro', 'intro')], []):
                 return 'CSuperCmdloop'
         raise BdbError(f'{w}: statement `{norm(st).splitlines()[0]}` not recognised')
 
@@ -464,11 +558,16 @@ def tr_cmdloop(fn) -> str:
 
 def factory_defs(repo: Path) -> dict:
     tree = parse(repo / SRC_FACTORY)
+    check_module_level(tree, SRC_FACTORY)
     ch = find(tree.body, ast.FunctionDef, 'CmdloopHook', SRC_FACTORY)
+    if ch.decorator_list or [a.arg for a in ch.args.args] != ['hook'] or ch.args.defaults:
+        raise BdbError('factory.CmdloopHook: decorators/parameters')
     inner = [st for st in strip_doc(ch.body) if isinstance(st, ast.FunctionDef)]
     rest = [st for st in strip_doc(ch.body) if not isinstance(st, ast.FunctionDef)]
     if len(inner) != 1 or len(rest) != 1 or not (isinstance(rest[0], ast.Return) and is_name(rest[0].value, inner[0].name)):
         raise BdbError('factory.CmdloopHook: expected one inner function, returned')
+    if inner[0].decorator_list or inner[0].args.args or inner[0].args.vararg or inner[0].args.kwarg or inner[0].args.kwonlyargs:
+        raise BdbError('factory.CmdloopHook: the inner function has decorators/parameters')
     prog = []
     for st in strip_doc(inner[0].body):
         w = f'factory.CmdloopHook:{st.lineno}'
@@ -487,11 +586,22 @@ def factory_defs(repo: Path) -> dict:
     # Factory: cmdloop_hook = CmdloopHook(hook=hook); _factory: pdb = CustomizedPdb(cmdloop_hook=cmdloop_hook, ...); return pdb.trace_dispatch
     fa = find(tree.body, ast.FunctionDef, 'Factory', SRC_FACTORY)
     hook_assign = [st for st in fa.body if isinstance(st, ast.Assign) and len(st.targets) == 1 and is_name(st.targets[0], 'cmdloop_hook')]
-    if len(hook_assign) != 1 or not (isinstance(hook_assign[0].value, ast.Call) and is_name(hook_assign[0].value.func, 'CmdloopHook')):
-        raise BdbError('factory.Factory: cmdloop_hook is not CmdloopHook(...)')
+    if len(hook_assign) != 1 or ast.dump(hook_assign[0].value) != ast.dump(ast.parse('CmdloopHook(hook=hook)', mode='eval').body):
+        raise BdbError('factory.Factory: cmdloop_hook is not CmdloopHook(hook=hook)')
+    if fa.decorator_list or [a.arg for a in fa.args.args] != ['hook']:
+        raise BdbError('factory.Factory: decorators/parameters')
+    for st in strip_doc(fa.body):
+        if st is hook_assign[0] or isinstance(st, ast.FunctionDef):
+            continue
+        if isinstance(st, ast.Assign) and len(st.targets) == 1 and is_name(st.targets[0], 'prompt_func') \
+                and ast.dump(st.value) == ast.dump(ast.parse('PromptFunc(hook=hook)', mode='eval').body):
+            continue
+        if isinstance(st, ast.Return) and is_name(st.value, '_factory'):
+            continue
+        raise BdbError(f'factory.Factory:{st.lineno}: statement `{norm(st).splitlines()[0]}` not recognised')
     inner_f = [st for st in fa.body if isinstance(st, ast.FunctionDef)]
-    if len(inner_f) != 1:
-        raise BdbError('factory.Factory: expected one inner function')
+    if len(inner_f) != 1 or inner_f[0].name != '_factory' or inner_f[0].decorator_list or inner_f[0].args.args:
+        raise BdbError('factory.Factory: expected one inner function `_factory()` without decorators')
     made = False
     returned = False
     for st in strip_doc(inner_f[0].body):
@@ -502,12 +612,18 @@ def factory_defs(repo: Path) -> dict:
             kws = {k.arg: k.value for k in c.keywords}
             if not is_name(kws.get('cmdloop_hook'), 'cmdloop_hook'):
                 raise BdbError('factory._factory: CustomizedPdb(cmdloop_hook=...) is not the CmdloopHook')
+            if set(kws) != {'cmdloop_hook', 'stdin', 'stdout'} or not all(isinstance(v, ast.Name) for v in kws.values()) or made:
+                raise BdbError('factory._factory: CustomizedPdb(...) arguments / created twice')
             made = True
         elif isinstance(st, ast.Return):
             if not (made and is_attr_chain(st.value, ['pdb', 'trace_dispatch'])):
                 raise BdbError(f'factory._factory: `{norm(st)}` is not `return pdb.trace_dispatch` of a fresh CustomizedPdb')
             returned = True
-        elif isinstance(st, ast.Assign) and len(st.targets) == 1 and (is_name(st.targets[0], 'stdio') or is_attr_chain(st.targets[0], ['stdio', 'prompt_end'])):
+        elif isinstance(st, ast.Assign) and len(st.targets) == 1 and is_name(st.targets[0], 'stdio') \
+                and ast.dump(st.value) == ast.dump(ast.parse('StdInOut(prompt_func=prompt_func)', mode='eval').body):
+            continue                    # the stream object of this Pdb (C07/C13): pinned shape
+        elif isinstance(st, ast.Assign) and len(st.targets) == 1 and is_attr_chain(st.targets[0], ['stdio', 'prompt_end']) \
+                and is_attr_chain(st.value, ['pdb', 'prompt']):
             continue
         elif is_noise(st):
             continue
@@ -519,6 +635,21 @@ def factory_defs(repo: Path) -> dict:
            and any(a.name == 'CustomizedPdb' and a.asname is None for a in st.names)]
     if len(imp) != 1:
         raise BdbError('factory.py: `from .custom import CustomizedPdb`')
+    # PdbInstanceFactory: init -> self._factory = Factory(hook=hook); create_local_trace_func -> return self._factory()   (pin)
+    pf = find(tree.body, ast.ClassDef, 'PdbInstanceFactory', SRC_FACTORY)
+    if pf.bases or pf.keywords or pf.decorator_list:
+        raise BdbError('PdbInstanceFactory: bases/decorators')
+    want = {'init': "self._factory = Factory(hook=hook)", 'create_local_trace_func': "return self._factory()"}
+    got = {}
+    for fn in check_class_body(pf, 'PdbInstanceFactory'):
+        if fn.name not in want or hookimpl_info(fn, f'PdbInstanceFactory.{fn.name}') is not False:
+            raise BdbError(f'PdbInstanceFactory.{fn.name}: unexpected method / not a plain hookimpl')
+        body = [st for st in strip_doc(fn.body) if not is_noise(st)]
+        if len(body) != 1 or ast.dump(body[0]) != ast.dump(ast.parse(want[fn.name]).body[0]):
+            raise BdbError(f'PdbInstanceFactory.{fn.name} is not `{want[fn.name]}`')
+        got[fn.name] = True
+    if set(got) != set(want):
+        raise BdbError('PdbInstanceFactory: init / create_local_trace_func missing')
     return {'hook': coq_list(prog)}
 
 
@@ -651,8 +782,6 @@ def tr_fstmt(st, sc: FScope) -> str:
             if is_task_or_thread(v, sc):
                 sc.env[t.id] = ('tot',)
                 return ''
-            if t.id == 'msg':
-                return ''                       # text of a log message
             try:
                 sc.env[t.id] = tr_sv(v, sc)
             except BdbError:
@@ -689,9 +818,15 @@ def check_match_any(cls) -> None:
 
 def filter_defs(repo: Path) -> list[str]:
     tree = parse(repo / SRC_FILTER)
-    if not any(isinstance(n, ast.ImportFrom) and n.level == 1 and n.module is None and any(a.name == '_script' and a.asname is None for a in n.names)
-               for n in tree.body):
-        raise BdbError('filter.py: `from . import _script`')
+    check_module_level(tree, SRC_FILTER)
+    imp = imports_of(tree)
+    want_imp = {'_script': ('.', '_script'), 'match_any': ('nextline.utils', 'match_any'),
+                'current_task_or_thread': ('nextline.utils', 'current_task_or_thread'), 'threading': ('threading', None),
+                'lru_cache': ('functools', 'lru_cache'), 'partial': ('functools', 'partial'),
+                'hookimpl': ('nextline.spawned.plugin.spec', 'hookimpl')}
+    for k, v in want_imp.items():
+        if imp.get(k) != v:
+            raise BdbError(f'filter.py: `{k}` is {imp.get(k)}, expected {v}')
     out = []
     for cls in tree.body:
         if not isinstance(cls, ast.ClassDef):
@@ -699,11 +834,17 @@ def filter_defs(repo: Path) -> list[str]:
         fns = {f.name: f for f in cls.body if isinstance(f, ast.FunctionDef)}
         flt = fns.get('filter')
         if flt is None or hookimpl_info(flt, f'{cls.name}.filter') is None:
+            if flt is not None or any(isinstance(x, ast.Attribute) and x.attr in STATE_ATTRS for x in ast.walk(cls)):
+                raise BdbError(f'filter.py: {cls.name}: a `filter` that is not a hookimpl / a class touching the filters\' state')
             continue
+        check_class_body(cls, cls.name)
+        for f in fns.values():
+            if f.name.startswith('__') and f.name != '__init__':
+                raise BdbError(f'filter.py: {cls.name}.{f.name}: special methods are not understood')
         if cls.bases or cls.keywords or cls.decorator_list:
             raise BdbError(f'filter.py: {cls.name}: bases/decorators')
         trylast = hookimpl_info(flt, f'{cls.name}.filter')
-        if [a.arg for a in flt.args.args] != ['self', 'trace_args']:
+        if [a.arg for a in flt.args.args] != ['self', 'trace_args'] or flt.args.defaults or flt.args.vararg or flt.args.kwarg or flt.args.kwonlyargs:
             raise BdbError(f'{cls.name}.filter: parameters')
         sc = FScope(f'{cls.name}.filter', 'trace_args')
         body = tr_fbody(flt.body, sc)
@@ -718,7 +859,7 @@ def filter_defs(repo: Path) -> list[str]:
                 continue
             seen.add(h)
             hf = fns.get(h)
-            if hf is None or hf.decorator_list or [a.arg for a in hf.args.args] != ['self', 'trace_args']:
+            if hf is None or hf.decorator_list or [a.arg for a in hf.args.args] != ['self', 'trace_args'] or hf.args.defaults:
                 raise BdbError(f'{cls.name}.{h}: helper not found / decorated / parameters')
             hsc = FScope(f'{cls.name}.{h}', 'trace_args')
             hb = tr_fbody(hf.body, hsc)
@@ -726,15 +867,40 @@ def filter_defs(repo: Path) -> list[str]:
             todo += helper_calls(hb)
         # who else writes the state the filter reads?  only __init__ (initial values) and on_cmdloop (modelled by c_mods0)
         for name, f in fns.items():
-            if name in ('filter', '__init__', 'on_cmdloop', 'context', 'init') or name in seen:
+            if name in ('filter', '__init__') or name in seen:
                 continue
-            if any(isinstance(x, ast.Attribute) and x.attr in ('_modules_to_trace', '_first_module_added', '_traced_tasks_and_threads', '_entering_thread')
-                   for x in ast.walk(f)):
-                raise BdbError(f'{cls.name}.{name}: touches the state of the filter')
+            check_sibling(cls.name, f)
         if '__init__' in fns:
             check_filer_init(cls.name, fns['__init__'])
         out.append(f'mkFC {q(cls.name)} (Some ({"true" if trylast else "false"},\n    {body}))\n    {coq_list(helpers)}')
     return out
+
+
+STATE_ATTRS = ('_modules_to_trace', '_first_module_added', '_traced_tasks_and_threads', '_entering_thread', '_match_any_', '_patterns')
+
+# the other methods of a filter class that may touch its state, statement by statement (pins; what they mean for the
+# model: `context` makes the entering thread the one that runs the script (c_entering), `on_cmdloop` adds the module of
+# every prompt (c_mods0 of the OTHER streams), FilterByModuleName.init fixes the skip patterns)
+SIBLINGS = {
+    ('FilerByModule', 'context'): ['self._entering_thread = threading.current_thread()', 'yield'],
+    ('FilerByModule', 'on_cmdloop'): ['trace_args = self._hook.hook.current_trace_args()', 'self._add(trace_args)', 'yield'],
+    ('FilerByModule', 'init'): ['self._hook = hook'],
+    ('FilterByModuleName', 'init'): ['self._patterns = frozenset(modules_to_skip)',
+                                     'self._match_any_ = lru_cache(partial(match_any, patterns=modules_to_skip))'],
+}
+
+
+def check_sibling(cname: str, fn) -> None:
+    touches = any(isinstance(x, ast.Attribute) and x.attr in STATE_ATTRS for x in ast.walk(fn)) \
+        or any(isinstance(x, ast.Call) and isinstance(x.func, ast.Attribute) and is_name(x.func.value, 'self') for x in ast.walk(fn))
+    want = SIBLINGS.get((cname, fn.name))
+    if want is None:
+        if touches:
+            raise BdbError(f'{cname}.{fn.name}: touches the state of the filter / calls a method of it')
+        return
+    body = [st for st in strip_doc(fn.body) if not is_noise(st)]
+    if [ast.dump(st) for st in body] != [ast.dump(ast.parse('def f():\n    ' + w).body[0].body[0]) for w in want]:
+        raise BdbError(f'{cname}.{fn.name}: body differs from {want}')
 
 
 def helper_calls(term: str) -> list[str]:
@@ -765,6 +931,7 @@ def check_filer_init(cname: str, fn) -> None:
 
 def register_prog(repo: Path) -> str:
     tree = parse(repo / SRC_REGISTER)
+    check_module_level(tree, SRC_REGISTER, allowed_assign=('__all__',))
     fn = find(tree.body, ast.FunctionDef, 'register', SRC_REGISTER)
     if [a.arg for a in fn.args.args] != ['hook', 'run_arg'] or fn.decorator_list:
         raise BdbError('register: parameters/decorators')
@@ -787,16 +954,17 @@ def register_prog(repo: Path) -> str:
         return seq(out, 'RSkip', 'RSeq')
 
     # the names registered are the classes of filter.py (no aliasing)
-    imported = {}
-    for st in tree.body:
-        if isinstance(st, ast.ImportFrom):
-            for a in st.names:
-                imported[a.asname or a.name] = (st.module, a.name)
+    imported = imports_of(tree)
     for name, (mod, orig) in imported.items():
-        if mod == 'filter' and name != orig:
+        if mod == '.filter' and name != orig:
             raise BdbError(f'plugins/__init__.py: filter class {orig} imported as {name}')
-        if mod != 'filter' and orig.startswith(('Filter', 'Filer')):
+        if mod != '.filter' and (orig or '').startswith(('Filter', 'Filer')):
             raise BdbError(f'plugins/__init__.py: {orig} imported from {mod}')
+    for nm in ('FilerByModule', 'FilterLambda', 'FilterByModuleName', 'FilterMainScript'):
+        if nm in imported and imported[nm] != ('.filter', nm):
+            raise BdbError(f'plugins/__init__.py: {nm} is {imported[nm]}')
+    if imported.get('GlobalTraceFunc') != ('.global_', 'GlobalTraceFunc') or imported.get('PdbInstanceFactory') != ('.pdb_', 'PdbInstanceFactory'):
+        raise BdbError('plugins/__init__.py: GlobalTraceFunc / PdbInstanceFactory imports')
     return body(fn.body)
 
 
@@ -820,8 +988,37 @@ def other_filter_impls(repo: Path) -> None:
 
 def global_prog(repo: Path) -> str:
     tree = parse(repo / SRC_GLOBAL)
+    check_module_level(tree, SRC_GLOBAL)
     cls = find(tree.body, ast.ClassDef, 'GlobalTraceFunc', SRC_GLOBAL)
+    if cls.bases or cls.keywords or cls.decorator_list:
+        raise BdbError('GlobalTraceFunc: bases/decorators')
+    for f in check_class_body(cls, 'GlobalTraceFunc'):
+        if f.name == 'init':
+            body = [st for st in strip_doc(f.body) if not is_noise(st)]
+            if [ast.dump(x) for x in body] != [ast.dump(ast.parse('self._hook = hook').body[0])] or hookimpl_info(f, 'GlobalTraceFunc.init') is not False:
+                raise BdbError('GlobalTraceFunc.init is not `self._hook = hook`')
+        elif f.name != 'global_trace_func':
+            raise BdbError(f'GlobalTraceFunc.{f.name}: unexpected method')
     fn = find(cls.body, ast.FunctionDef, 'global_trace_func', 'GlobalTraceFunc')
+    if fn.args.defaults or fn.args.vararg or fn.args.kwarg or fn.args.kwonlyargs:
+        raise BdbError('global_trace_func: defaults / *args')
+    # TraceFuncCreator._trace_func: `return self._hook.hook.global_trace_func(frame=frame, event=event, arg=arg)` inside try / except: raise   (pin)
+    tc = find(tree.body, ast.ClassDef, 'TraceFuncCreator', SRC_GLOBAL)
+    cf = find(tc.body, ast.FunctionDef, 'create_trace_func', 'TraceFuncCreator')
+    inner = [st for st in strip_doc(cf.body) if isinstance(st, ast.FunctionDef)]
+    rest = [st for st in strip_doc(cf.body) if not isinstance(st, ast.FunctionDef) and not is_noise(st)]
+    want_inner = ast.parse("""
+def _trace_func(frame, event, arg):
+    try:
+        return self._hook.hook.global_trace_func(frame=frame, event=event, arg=arg)
+    except BaseException:
+        self._logger.exception('')
+        raise
+""").body[0]
+    if len(inner) != 1 or len(rest) != 1 or not (isinstance(rest[0], ast.Return) and is_name(rest[0].value, inner[0].name)) \
+            or inner[0].decorator_list or [ast.dump(x) for x in strip_doc(inner[0].body)] != [ast.dump(x) for x in want_inner.body] \
+            or [a.arg for a in inner[0].args.args] != ['frame', 'event', 'arg']:
+        raise BdbError('TraceFuncCreator.create_trace_func: the trace function is not a plain call of the global_trace_func hook')
     if [a.arg for a in fn.args.args] != ['self', 'frame', 'event', 'arg'] or hookimpl_info(fn, 'global_trace_func') is None:
         raise BdbError('global_trace_func: parameters/decorators')
 
@@ -862,10 +1059,16 @@ def global_prog(repo: Path) -> str:
 
 def local_trace_prog(repo: Path) -> str:
     tree = parse(repo / SRC_UTILS)
+    check_module_level(tree, SRC_UTILS)
     wc = find(tree.body, ast.FunctionDef, 'WithContext', SRC_UTILS)
+    if wc.decorator_list or [a.arg for a in wc.args.args] != ['trace', 'context'] or wc.args.defaults:
+        raise BdbError('WithContext: decorators/parameters')
     cl = find(wc.body, ast.FunctionDef, '_create_local_trace', 'WithContext')
     gt = find(wc.body, ast.FunctionDef, '_global_trace', 'WithContext')
     lt = find(cl.body, ast.FunctionDef, '_local_trace', '_create_local_trace')
+    for f, ps in ((cl, []), (gt, ['frame', 'event', 'arg']), (lt, ['frame', 'event', 'arg'])):
+        if f.decorator_list or [a.arg for a in f.args.args] != ps or f.args.defaults or f.args.vararg or f.args.kwarg:
+            raise BdbError(f'WithContext.{f.name}: decorators/parameters')
     # _global_trace: return _create_local_trace()(frame, event, arg)  -- a FRESH closure per call event
     gb = [st for st in strip_doc(gt.body) if not is_noise(st)]
     want = ast.dump(ast.parse('return _create_local_trace()(frame, event, arg)').body[0])
@@ -896,9 +1099,16 @@ def local_trace_prog(repo: Path) -> str:
         out = []
         for st in strip_doc(sts):
             w = f'_local_trace:{st.lineno}'
-            if is_noise(st) or isinstance(st, ast.Nonlocal):
+            if is_noise(st):
                 continue
-            if isinstance(st, ast.Assert) and not any(isinstance(x, (ast.Call, ast.NamedExpr)) for x in ast.walk(st)):
+            if isinstance(st, ast.Nonlocal):
+                if st.names != ['next_trace']:
+                    raise BdbError(f'{w}: `{norm(st)}`')
+                continue
+            if isinstance(st, ast.Assert):
+                if not (is_name(st.test, 'next_trace') and st.msg is None):
+                    raise BdbError(f'{w}: `{norm(st)}` is not `assert next_trace`')
+                out.append('WAssertNextTrace')
                 continue
             if isinstance(st, ast.With):
                 c = st.items[0].context_expr if len(st.items) == 1 and st.items[0].optional_vars is None else None
@@ -924,9 +1134,37 @@ def local_trace_prog(repo: Path) -> str:
 def sys_trace_guard(repo: Path) -> bool:
     """sys_trace(trace_func, thread): threading.settrace(trace_func) only under `if thread:`; sys.settrace(trace_func) unconditionally"""
     tree = parse(repo / SRC_CALL)
+    check_module_level(tree, SRC_CALL)
     fn = find(tree.body, ast.FunctionDef, 'sys_trace', SRC_CALL)
-    if [a.arg for a in fn.args.args] != ['trace_func', 'thread']:
-        raise BdbError('sys_trace: parameters')
+    if [a.arg for a in fn.args.args] != ['trace_func', 'thread'] or [norm(d) for d in fn.decorator_list] != ['contextmanager']:
+        raise BdbError('sys_trace: parameters/decorators')
+    imp = imports_of(tree)
+    if imp.get('sys') != ('sys', None) or imp.get('threading') != ('threading', None) or imp.get('contextmanager') != ('contextlib', 'contextmanager'):
+        raise BdbError('call.py: sys / threading / contextmanager imports')
+    # the only call: runner._compile_and_run `with sys_trace(trace_func=trace_func, thread=run_arg.trace_threads):` (pin)
+    rt = parse(repo / SRC_RUNNER)
+    if imports_of(rt).get('sys_trace') != ('.call', 'sys_trace'):
+        raise BdbError('runner.py: `from .call import sys_trace`')
+    calls = [x for x in ast.walk(rt) if isinstance(x, ast.Call) and is_name(x.func, 'sys_trace')]
+    want = ast.dump(ast.parse('sys_trace(trace_func=trace_func, thread=run_arg.trace_threads)', mode='eval').body)
+    if len(calls) != 1 or ast.dump(calls[0]) != want:
+        raise BdbError('runner.py: sys_trace is not called exactly once as sys_trace(trace_func=trace_func, thread=run_arg.trace_threads)')
+    tf = [st for st in ast.walk(rt) if isinstance(st, ast.Assign) and len(st.targets) == 1 and is_name(st.targets[0], 'trace_func')]
+    if len(tf) != 1 or ast.dump(tf[0].value) != ast.dump(ast.parse('hook.hook.create_trace_func()', mode='eval').body):
+        raise BdbError('runner.py: trace_func is not hook.hook.create_trace_func()')
+    for p2 in sorted((repo / 'nextline').rglob('*.py')):
+        if p2.name in ('call.py', 'runner.py', 'skip.py'):
+            continue
+        rel = p2.relative_to(repo).as_posix()
+        if rel == 'nextline/disable.py':
+            continue                    # `disable_trace`, a utility exported for user scripts; nextline itself must not use it (below)
+        if rel != 'nextline/__init__.py' and any(isinstance(x, (ast.Name, ast.Attribute, ast.alias)) and
+                                                  (getattr(x, 'id', None) == 'disable_trace' or getattr(x, 'attr', None) == 'disable_trace'
+                                                   or getattr(x, 'name', None) == 'disable_trace') for x in ast.walk(parse(p2))):
+            raise BdbError(f'{p2}: nextline uses disable_trace')
+        if any(isinstance(x, ast.Attribute) and x.attr in ('settrace', 'setprofile', 'monitoring') and isinstance(x.value, ast.Name)
+               and x.value.id in ('sys', 'threading') for x in ast.walk(parse(p2))):
+            raise BdbError(f'{p2}: sys/threading.settrace used outside call.py')
     guarded = None
     sys_set = False
     seen_yield = False
@@ -957,6 +1195,52 @@ def sys_trace_guard(repo: Path) -> bool:
     return True
 
 
+def local_pins(repo: Path) -> None:
+    """local_.py (pins, no term emitted): one trace function per trace number, each a WithContext around the function
+    the `create_local_trace_func` hook returns (= a fresh CustomizedPdb's trace_dispatch, factory.py)"""
+    tree = parse(repo / SRC_LOCAL)
+    check_module_level(tree, SRC_LOCAL)
+    imp = imports_of(tree)
+    if imp.get('WithContext') != ('nextline.spawned.utils', 'WithContext') or imp.get('defaultdict') != ('collections', 'defaultdict'):
+        raise BdbError('local_.py: WithContext / defaultdict imports')
+    cls = find(tree.body, ast.ClassDef, 'LocalTraceFunc', SRC_LOCAL)
+    if cls.bases or cls.keywords or cls.decorator_list:
+        raise BdbError('LocalTraceFunc: bases/decorators')
+    want = {
+        'init': ['self._hook = hook', 'factory = Factory(hook)', 'self._map = defaultdict[TraceNo, TraceFunction](factory)'],
+        'local_trace_func': ['trace_no = self._hook.hook.current_trace_no()', 'local_trace_func = self._map[trace_no]',
+                             'return local_trace_func(frame, event, arg)'],
+    }
+    for fn in check_class_body(cls, 'LocalTraceFunc'):
+        if fn.name in want:
+            body = [st for st in strip_doc(fn.body) if not is_noise(st)]
+            if hookimpl_info(fn, f'LocalTraceFunc.{fn.name}') is not False \
+                    or [ast.dump(x) for x in body] != [ast.dump(ast.parse('def f():\n    ' + w).body[0].body[0]) for w in want[fn.name]]:
+                raise BdbError(f'LocalTraceFunc.{fn.name}: body differs from {want[fn.name]}')
+        elif any(isinstance(x, ast.Attribute) and x.attr == '_map' for x in ast.walk(fn)):
+            raise BdbError(f'LocalTraceFunc.{fn.name}: touches _map')
+    fa = find(tree.body, ast.FunctionDef, 'Factory', SRC_LOCAL)
+    inner = [st for st in strip_doc(fa.body) if isinstance(st, ast.FunctionDef)]
+    if len(inner) != 1 or inner[0].name != '_factory' or inner[0].decorator_list or inner[0].args.args:
+        raise BdbError('local_.Factory: expected one inner function `_factory()`')
+    rest = [st for st in strip_doc(fa.body) if st is not inner[0] and not is_noise(st)]
+    if not rest or not (isinstance(rest[-1], ast.Return) and is_name(rest[-1].value, '_factory')):
+        raise BdbError('local_.Factory does not return _factory')
+    body = strip_doc(inner[0].body)
+    first, last = body[0], body[-1]
+    if ast.dump(first) != ast.dump(ast.parse('trace = hook.hook.create_local_trace_func()').body[0]) \
+            or ast.dump(last) != ast.dump(ast.parse('return WithContext(trace, context=_context)').body[0]):
+        raise BdbError('local_.Factory._factory: first/last statement differ from `trace = hook.hook.create_local_trace_func()` / '
+                       '`return WithContext(trace, context=_context)`')
+    uses = [x for st in body[1:-1] for x in ast.walk(st) if isinstance(x, ast.Name) and x.id in ('trace', 'WithContext')]
+    if uses:
+        raise BdbError('local_.Factory._factory: `trace` / WithContext used between creation and wrapping')
+    ctx = [st for st in body[1:-1] if isinstance(st, ast.FunctionDef) and st.name == '_context']
+    if len(ctx) != 1 or [norm(d) for d in ctx[0].decorator_list] != ['contextmanager'] \
+            or sum(isinstance(x, (ast.Yield, ast.YieldFrom)) for x in ast.walk(ctx[0])) != 1:
+        raise BdbError('local_.Factory._factory: `_context` is not a contextmanager with exactly one yield')
+
+
 # ---------------------------------------------------------------- all of it
 
 def translate(repo: Path) -> str:
@@ -970,6 +1254,7 @@ def translate(repo: Path) -> str:
     glob = global_prog(repo)
     loc = local_trace_prog(repo)
     guard = sys_trace_guard(repo)
+    local_pins(repo)
 
     def mlist(ms):
         return '[' + ';\n   '.join(ms) + ']'
